@@ -58,6 +58,10 @@ class C12(CheckBase):
             self.schemas.append(("algo_sink", f.read()))      # two schemas, functions/procedures/rules, renamed USE/REFERENCE
         for sd in pw.schema_defs(seed, tier, 2 if tier == "quick" else 10, label="c12")[1:]:
             self.schemas.append((sd["name"], pm.emit_express(sd)))
+        from simlib import exprgen
+        for k in range(3 if tier == "quick" else 12):
+            nm = "algo%d" % k
+            self.schemas.append((nm, exprgen.gen_algo_schema(core.rng(seed, "C12", "algo", k), nm)))
         for t in TOOLS:
             toolsim.tool_path("plain", t)
         toolsim.shim()
